@@ -122,6 +122,18 @@ def oracleCombine (prev : QSet) (a : CombineArgs) (out : Outcome) (after : Strin
       else "true"
   | _ => "bad-op not-in-domain"
 
+/-- The property for a run that is not a queue task (an admission / conversion hook run): `t` is in
+no queue of the set and names none, the queue pointer is what `GetByName` of its name gives (nil).
+Nothing is merged and no task leaves a queue. -/
+def oracleUntouched (prev : QSet) (a : CombineArgs) (out : Outcome) (after : String) : String :=
+  if prev.any (fun p => p.2.any (·.id == a.t.id)) || (prev.get a.t.queue).isSome || a.passed.isSome then
+    "bad-op not-in-domain"
+  else
+    let wantQs : QSet := prev.map fun p => (p.1, p.2 ++ appsFor a.apps p.1)
+    if out != .nil then "false want-out=nil"
+    else if after != showQs wantQs then s!"false want-queues={showQs wantQs}"
+    else "true"
+
 def parseOut (rest : List String) : Option Outcome :=
   match kv? "out" rest with
   | some "nil" => some .nil
@@ -165,6 +177,10 @@ def step (st : St) (toks : List String) : St × String :=
   | "oracle" :: "combine" :: rest =>
     match parseCombine { st with qs := st.prev } rest, parseOut rest, kv? "queues" rest with
     | some a, some out, some after => (st, oracleCombine st.prev a out after)
+    | _, _, _ => (st, "bad-op")
+  | "oracle" :: "untouched" :: rest =>
+    match parseCombine { st with qs := st.prev } rest, parseOut rest, kv? "queues" rest with
+    | some a, some out, some after => (st, oracleUntouched st.prev a out after)
     | _, _, _ => (st, "bad-op")
   | _ => (st, "bad-op")
 
